@@ -448,7 +448,69 @@ def u_tls(ctx, u):
         judge_point(ctx, 'tls13-client-key-share', name, r, point_xy(ctx, pb) if r == 1 else None, x, y, valid)
         for b in (eb, pb, sk, out):
             b.free()
-    ctx.sample({'kind': 'tls', 'paths': ['tls12 ServerKeyExchange', 'tls12 ClientKeyExchange', 'tls13 server key_share', 'tls13 client key_share']})
+    # the same four paths with every kind of octet string as the share: other lengths (1, 2, 33, 34, 64, 66 octets) and
+    # prefixes (the one-octet encoding 00 of the point at infinity, compressed forms, hybrid forms, junk), with all length
+    # fields consistent.  A share is a peer's key-agreement share: infinity is never acceptable here
+    g = rand_point(rng)
+    variants = []
+    for pre in (0, 1, 2, 3, 4, 5, 6, 7, 0x80, 0xff):
+        for ln in (1, 2, 33, 34, 64, 65, 66):
+            variants.append(bytes([pre]) + (b32(g[0]) + b32(g[1]) + b'\0')[:ln - 1])
+    variants += [b'\x00' * 33, b'\x00' * 65, b'\x04' + bytes(64), b'\x02' + bytes(32)]
+    for data in variants:
+        exp = octets_expect(data)
+        fine = exp is not None and exp[0] != 'infinity'
+        label = 'prefix-%02x-len-%d' % (data[0], len(data))
+
+        def judge(path, r, pb):
+            got = point_xy(ctx, pb) if r == 1 else None
+            inf = r == 1 and ctx.lib.sm2_z256_point_is_at_infinity(pb) == 1
+            if fine:
+                # compressed / other valid encodings may be refused by a TLS path; when accepted they must be the encoded point
+                ctx.check(r != 1 or got == exp[1], 'point:%s:share-decodes-to-other-point' % path, share=data.hex(), got=repr(got))
+            else:
+                ctx.check(r != 1, 'point:%s:accepted-invalid:%s' % (path, 'infinity-encoding' if exp is not None else 'malformed-share'),
+                          share=data.hex(), got=repr(got), infinity=inf)
+            ctx.nontrivial(path, label)
+        n = len(data)
+        share = (41).to_bytes(2, 'big') + n.to_bytes(2, 'big') + data
+        eb = ctx.inbuf(share)
+        pb = ctx.buf(L['sizeof_SM2_Z256_POINT'], fill=0x5A)
+        ctx.begin(['server_key_share', label])
+        judge('tls13-server-key-share', lib.tls13_process_server_key_share(eb, len(share), pb), pb)
+        eb.free()
+        pb.free()
+        cshares = len(share).to_bytes(2, 'big') + share
+        eb = ctx.inbuf(cshares)
+        pb = ctx.buf(L['sizeof_SM2_Z256_POINT'], fill=0x5A)
+        sk, _ = U.key_from_private(ctx, rng.randrange(1, N - 1))
+        out = ctx.buf(256)
+        op = ctypes.c_void_p(out.ptr)
+        ol = ctypes.c_size_t(0)
+        ctx.begin(['client_key_share', label])
+        judge('tls13-client-key-share', lib.tls13_process_client_key_share(eb, len(cshares), sk, pb, ctypes.byref(op), ctypes.byref(ol)), pb)
+        for b in (eb, pb, sk, out):
+            b.free()
+        if n < 256:
+            cke = hs(16, bytes([n]) + data)
+            rb = ctx.inbuf(rec(cke))
+            pb = ctx.buf(L['sizeof_SM2_Z256_POINT'], fill=0x5A)
+            ctx.begin(['cke', label])
+            judge('tls12-client-key-exchange', lib.tls_record_get_handshake_client_key_exchange_ecdhe(rb, pb), pb)
+            rb.free()
+            pb.free()
+            sig = R.sig_der(rng.randrange(1, N), rng.randrange(1, N))
+            ske = hs(12, b'\x03' + (41).to_bytes(2, 'big') + bytes([n]) + data + b'\x07\x08' + len(sig).to_bytes(2, 'big') + sig)
+            rb = ctx.inbuf(rec(ske))
+            pb = ctx.buf(L['sizeof_SM2_Z256_POINT'], fill=0x5A)
+            curve = ctypes.c_int(0)
+            sp, sl = ctypes.c_void_p(), ctypes.c_size_t()
+            ctx.begin(['ske', label])
+            judge('tls12-server-key-exchange', lib.tls_record_get_handshake_server_key_exchange_ecdhe(rb, ctypes.byref(curve), pb, ctypes.byref(sp), ctypes.byref(sl)), pb)
+            rb.free()
+            pb.free()
+    ctx.sample({'kind': 'tls', 'paths': ['tls12 ServerKeyExchange', 'tls12 ClientKeyExchange', 'tls13 server key_share', 'tls13 client key_share'],
+                'share_variants': len(variants)})
 
 
 def ec_private_key_der(d_bytes, pub=None, params=True):
